@@ -123,6 +123,26 @@ def instr_case(ctx, name):
             src = refasm.source(prog, st)
             ctx.state((name, src))
             judge(ctx, prog, src, {'family': 'instruction', 'op': name}, expect)
+        # the same statement as the last one of the source (nothing for a look-ahead to look at)
+        last = [SENT_A, stmt]
+        try:
+            expect_last = refasm.encode_prog(last)
+        except AsmError:
+            expect_last = None
+        for st in (Style(), Style(prefix='', case='lower')) + ((Style(push_size=True),) if name in ('PUSH1', 'PUSH2') else ()):
+            n += 1
+            src = refasm.source(last, st)
+            ctx.state((name, src, 'last'))
+            judge(ctx, last, src, {'family': 'instruction', 'op': name, 'position': 'end of source'}, expect_last)
+            # position independence: a statement the compiler accepts in the middle of a source is accepted at its end
+            if expect_last is not None:
+                mid, mid_err = compile_(refasm.source(prog, st))
+                got_last, last_err = compile_(src)
+                ctx.ran(2)
+                if mid_err is None and last_err is not None:
+                    ctx.violation({'family': 'instruction', 'op': name, 'position': 'end of source',
+                                   'clause': 'statement accepted mid-source is rejected as the last statement'},
+                                  f'source {src!r}: {last_err!r} (compiles when followed by another statement)')
     ctx.evaluations += n - 1
 
 
